@@ -94,7 +94,7 @@ fn verif_replay() {
     let ctx = if outer_vars.is_empty() { ctx } else { Scope::make_context(&outer_vars, ctx).unwrap() };
     let ctx = if vars.is_empty() { ctx } else { Scope::make_context(&vars, ctx).unwrap() };
     let r = ops!(name.as_str(), ctx, &args, Not, BitNot, Negative, Plus, Minus, Multiply, Divide, Mod, BitAnd, BitOr, BitXor, ShiftLeft, ShiftRight,
-                 ShiftRightUnsigned, And, Or, Xor, Greater, GreaterOrEqual, Lesser, LesserOrEqual, Equal, NotEqual, ToString, ToInteger, Split, StringConcat, Index, IsMemberOf);
+                 ShiftRightUnsigned, And, Or, Xor, Greater, GreaterOrEqual, Lesser, LesserOrEqual, Equal, NotEqual, ToString, ToInteger, Split, StringConcat, Index, IsMemberOf, If);
     match r {
         None => println!("VERIF-OUTCOME {}", serde_json::json!({"unknown_op": name})),
         Some((sig, None)) => println!("VERIF-OUTCOME {}", serde_json::json!({"sig_ok": false, "sig": sig.err(), "panicked": false})),
